@@ -89,6 +89,11 @@ def gen(ctx):
             args = [[c, s, st, en, fl] for c, s, st, en, fl in itertools.product(
                 range(1, n + 2), [None, 1, 2], [None] + list(range(0, n + 1)), [None] + list(range(0, n + 2)), (True, False))]
             cases.append(dict(n=n, args=args, nptype=npt))
+    # chunk length and step size as NumPy integers of a narrow type, on an array longer than the type can count
+    for npt in ('int8', 'uint8', 'int16'):
+        args = [[c, s, st, en, fl] for c in (100, 127, 50, 1) for s in (None, 100, 60, 127) for st in (None, 5)
+                for en in (None, 290) for fl in (True, False)]
+        cases.append(dict(n=300, args=args, nptype=npt, npall=True))
     # longer arrays, sampled
     r = ctx.rng
     for _ in range(6 if ctx.quick else 40):
